@@ -1,6 +1,7 @@
 package rules
 
 import (
+	"go/types"
 	"strings"
 
 	"dcverif/internal/load"
@@ -113,4 +114,30 @@ func (c *Ctx) moduleClosure(fn *ssa.Function) []*ssa.Function {
 		return false
 	})
 	return out
+}
+
+
+// levelDBCall: the call is goleveldb's (*DB).<name> / (*Transaction).<name> — directly, or through an interface that
+// marks the boundary in front of the database (an interface method call one of whose implementations, per the VTA call
+// graph, is that goleveldb method). Returns the arguments without the receiver.
+func (c *Ctx) levelDBCall(ci ssa.CallInstruction, name string) ([]ssa.Value, bool) {
+	is := func(id string) bool {
+		return id == "github.com/syndtr/goleveldb/leveldb.(DB)."+name || id == "github.com/syndtr/goleveldb/leveldb.(Transaction)."+name
+	}
+	cc := ci.Common()
+	if !cc.IsInvoke() {
+		if is(ssax.FuncID(ssax.CalleeObj(ci))) && len(cc.Args) > 0 {
+			return cc.Args[1:], true
+		}
+		return nil, false
+	}
+	if cc.Method == nil || cc.Method.Name() != name {
+		return nil, false
+	}
+	for _, cf := range c.calleesAt(ci) {
+		if obj, ok := cf.Object().(*types.Func); ok && is(ssax.FuncID(obj)) {
+			return cc.Args, true
+		}
+	}
+	return nil, false
 }
